@@ -86,6 +86,30 @@ def siamese(n):
     return [v for row in m for v in row]
 
 
+def pandiagonal(n):
+    """A pandiagonal magic square of order n prime to 6, values 0..n^2-1 (checked by the definition in the worker)."""
+    return [[n * ((i + 2 * j) % n) + ((2 * i + j) % n) for j in range(n)] for i in range(n)]
+
+
+def dihedral(flat, n):
+    """The 8 images of a square given row major."""
+    m = [list(flat[i * n : (i + 1) * n]) for i in range(n)]
+    out = []
+    for _ in range(4):
+        m = [[m[n - 1 - j][i] for j in range(n)] for i in range(n)]  # quarter turn
+        out.append([v for r in m for v in r])
+        out.append([v for r in m for v in reversed(r)])  # and its mirror image
+    return out
+
+
+def perm(n, g):
+    p = list(range(n))
+    for i in range(n - 1, 0, -1):
+        j = next(g) % (i + 1)
+        p[i], p[j] = p[j], p[i]
+    return p
+
+
 def lcg(seed):
     x = seed * 2654435761 % (1 << 32)
     while True:
@@ -163,6 +187,33 @@ def points(tier: str) -> List[dict]:
         P.append({"spec": {"model": "latin", "n": n, "fix_many": near_misses([(i + j) % n for i in range(n) for j in range(n)], 60 if not th else 300, gm, 0, n - 1)}, "by_validator": True})
     for n in (5, 8, 12):
         P.append({"spec": {"model": "latin", "n": n, "fix_solution": [(i + j) % n for i in range(n) for j in range(n)]}, "count": 1, "accepts": True})
+    # Objects that do not come from one textbook construction (a construction has structure of its own - the Siamese
+    # method always puts the median in the centre - and a model that is wrong only off that structure would pass):
+    # whole orbits of known objects under the symmetries of the problem, judged one by one by the definition.
+    for n in (5, 7) + ((11,) if th else ()):
+        pd = pandiagonal(n)  # every toroidal shift of a pandiagonal square is magic: n^2 squares with every centre
+        shifts = [[pd[(i + a) % n][(j + b) % n] for i in range(n) for j in range(n)] for a in range(n) for b in range(n)]
+        if n > 7:
+            shifts = shifts[:: 3]
+        P.append({"spec": {"model": "magic_square", "n": n, "sym": False, "fix_many": shifts + [[n * n - 1 - v for v in x] for x in shifts[:10]]}, "by_validator": True})
+        for x in shifts[1 : (4 if not th else 12)]:
+            # symmetry breaking must keep at least one of the 8 images of any magic square
+            P.append({"spec": {"model": "magic_square", "n": n, "sym": True, "fix_many": dihedral(x, n)}, "min_count": 1})
+    for n in (3, 5):
+        P.append({"spec": {"model": "magic_square", "n": n, "sym": True, "fix_many": dihedral(siamese(n), n)}, "min_count": 1})
+    for n in (8, 9, 14, 27):
+        q = queens_solution(n)[:n]
+        imgs = []
+        for img in dihedral([1 if q[i] == j else 0 for i in range(n) for j in range(n)], n):
+            qq = [img[i * n : (i + 1) * n].index(1) for i in range(n)]
+            imgs.append(qq + [qq[i] + i for i in range(n)] + [qq[i] - i for i in range(n)])
+        P.append({"spec": {"model": "queens", "n": n, "fix_many": imgs}, "by_validator": True})
+    for n in (4, 5, 8):
+        iso = []
+        for c in range(30 if not th else 120):
+            pr, pc, ps = (perm(n, gm) for _ in range(3))  # an isotope of the cyclic square: rows, columns, symbols permuted
+            iso.append([ps[(pr[i] + pc[j]) % n] for i in range(n) for j in range(n)])
+        P.append({"spec": {"model": "latin", "n": n, "fix_many": iso}, "by_validator": True})
     for v, b, r, k, l in ((3, 3, 2, 2, 1), (4, 6, 3, 2, 1), (4, 4, 3, 3, 2), (5, 5, 4, 4, 3), (3, 6, 4, 2, 2)):
         P.append({"spec": {"model": "bibd", "v": v, "b": b, "r": r, "k": k, "l": l, "sym": False, "brute": True}, "count": "brute"})
         P.append({"spec": {"model": "bibd", "v": v, "b": b, "r": r, "k": k, "l": l, "sym": True, "brute": True}, "sat": "brute"})
@@ -466,6 +517,10 @@ def run(ch: Choices, focus: str = "C20", params: Optional[dict] = None) -> dict:
                 viol("model-run-failed", ctx + "the candidates do not cover the variables of the model")
             elif res["count"] != res["expected_by_validator"]:
                 viol("model-disagrees-with-definition", ctx + f"of {len(spec['fix_many'])} fully instantiated candidates the definition accepts {res['expected_by_validator']}, the model {res['count']}")
+        if pt.get("min_count") is not None:
+            out["probes"]["symmetry_orbits_offered"] += 1
+            if res["count"] < pt["min_count"]:
+                viol("symmetry-breaking-loses-every-image", ctx + f"of the {len(spec['fix_many'])} symmetric images of a valid object the symmetry-broken model accepts {res['count']}")
         want = pt.get("count")
         if want == "brute":
             want = res.get("brute")
